@@ -158,12 +158,14 @@ class SuccessiveCancellationDecoder(BaseBlockDecoder[PolarCodeEncoder]):
             x = x[:, perm]
         return u, x, y_final
 
-    def forward(self, received: torch.Tensor, return_for_loss=False, *args: Any, **kwargs: Any) -> torch.Tensor:
+    def forward(self, received: torch.Tensor, *args: Any, return_for_loss=False, **kwargs: Any) -> torch.Tensor:
         """Decode the received codeword using Successive Cancellation algorithm.
 
         Args:
             received (torch.Tensor): Received codeword tensor of shape (batch_size, n).
+            *args: Additional positional arguments passed along a pipeline (e.g. the noise variance); unused.
             return_for_loss (bool): If True, returns the log-likelihood ratio (LLR) values for loss calculation.
+                                    Keyword-only, so that positional pipeline extras are not mistaken for it.
                                     If False, returns the estimated message bits.
 
         Returns:
